@@ -310,9 +310,55 @@ def correspondence(ctx):
     return mixlib.content_corr(ctx, ctx.n(120, 1500), into=res)
 
 
+def allowlist_history_case(rng, token, fixed=None):
+    """the verdict on an xml:base depends on the scheme allow-list IN EFFECT (feedparser.urls.ACCEPTABLE_URI_SCHEMES, documented as settable): the same document under
+    the same allow-list must resolve the same whether or not it was parsed under another allow-list before.  Unique document bases keep the reference run free of any history."""
+    import feedparser
+    import feedparser.urls as U
+    default = tuple(U.ACCEPTABLE_URI_SCHEMES)
+    scheme = fixed["scheme"] if fixed else rng.choice([x for x in ("ftp", "sftp", "rtsp", "gopher", "https") if x in default])
+    xb = "%s://files%s.example/pub/" % (scheme, token)
+    doc = ('<feed xmlns="http://www.w3.org/2005/Atom"><title>t</title><link href="top/l"/><entry xml:base="%s"><title>e</title><link href="rel/x"/><id>rel/id</id>'
+           '<content type="html">&lt;a href="rel/y"&gt;l&lt;/a&gt;</content></entry><entry><title>f</title><link href="rel/z"/></entry></feed>' % xb).encode()
+    narrow = tuple(x for x in default if x != scheme)
+    lists = {"default": default, "narrow": narrow, "empty": ()}
+    fk, sk = (fixed["first"], fixed["second"]) if fixed else rng.choice([("default", "narrow"), ("narrow", "default"), ("default", "empty"), ("empty", "narrow")])
+    first, second = lists[fk], lists[sk]
+    fs = []
+    for loose in (False, True):
+        def run(base, lst):
+            saved = U.ACCEPTABLE_URI_SCHEMES
+            try:
+                U.ACCEPTABLE_URI_SCHEMES = lst
+                r, _log = tr.traced_parse(doc, {"content-location": base, "content-type": "application/xml; charset=utf-8"}, loose=loose)
+            finally:
+                U.ACCEPTABLE_URI_SCHEMES = saved
+            return r
+        b1, b2 = "http://h%sa.example/dir/" % token, "http://h%sb.example/dir/" % token
+        ref = run(b1, second)
+        run(b2, first)
+        hist = run(b2, second)
+        if isinstance(ref, Exception) or isinstance(hist, Exception):
+            continue
+        canon = lambda r, b: repr((dict(r.feed), [dict(e) for e in r.entries])).replace(b, "BASE/")
+        a, h = canon(ref, b1), canon(hist, b2)
+        if a != h:
+            i = next((k for k in range(min(len(a), len(h))) if a[k] != h[k]), 0)
+            fs.append(Finding(("history", "allow-list-change", "loose" if loose else "strict"),
+                              {"doc": doc, "kind": "allowlist-history", "first": fk, "second": sk, "scheme": scheme, "token": token, "loose": loose},
+                              "the same document under the same scheme allow-list resolves differently after a parse under ANOTHER allow-list (xml:base %s): fresh ...%s..., with history ...%s..." % (xb, a[max(0, i - 40):i + 60], h[max(0, i - 40):i + 60]),
+                              observed=h[max(0, i - 40):i + 80], expected=a[max(0, i - 40):i + 80]))
+    return fs
+
+
 def search(ctx, focus=None):
     rng = ctx.rng
     failures, n, distinct = [], 0, set()
+    for j in range(ctx.n(12, 120)):
+        n += 1
+        tok = "%d%04d" % (j, rng.randrange(10000))
+        distinct.add(("hist", tok))
+        failures += allowlist_history_case(rng, tok)
     for _ in range(ctx.n(500, 12000)):
         fmt = rng.choice(["atom", "rss"])
         doc, exp = gen_doc(rng, fmt)
@@ -321,7 +367,8 @@ def search(ctx, focus=None):
         distinct.add((doc, loose))
         failures += check_doc(doc, fmt, loose, exp)
     return {"evaluations": n, "distinct_nontrivial": len(distinct), "failures": failures,
-            "rule": "Atom / RSS documents with an absolute document base (Content-Location); xml:base in {absent, absolute, relative, path-absolute, "
+            "rule": "ALLOW-LIST HISTORIES: a document with an xml:base of an allow-listed scheme parsed under allow-list A and then under B (default / without that scheme / ()), compared with a history-free parse under B (unique document bases); "
+                    "Atom / RSS documents with an absolute document base (Content-Location); xml:base in {absent, absolute, relative, path-absolute, "
                     "query-only, parent-relative, network-path, empty, unsafe javascript:/data:} and xml:lang in {absent, en, fr-CA, '', de} drawn independently "
                     "at feed/channel, entry/item, title, content/description, source level; children in random order so URI fields occur before and after "
                     "nested overrides and closed children; 1-3 entries; references from RFC 3986 5.4 (deviation-free sublanguage); both back ends; every "
@@ -331,6 +378,9 @@ def search(ctx, focus=None):
 
 
 def replay(w):
+    if w.get("kind") == "allowlist-history":
+        fs = [f for f in allowlist_history_case(None, w["token"] + "r", fixed=w) if f.witness["loose"] == w["loose"]]
+        return (bool(fs), fs[0].what if fs else "the allow-list in effect decides, whatever was parsed before")
     doc, fmt, loose = w["doc"], w["fmt"], w["loose"]
     # expectations are stored with the witness; getters are rebuilt from the names
     exp = []
